@@ -42,6 +42,9 @@ def outcome_classes(transport):
         # slow, not dead: every transmission is answered, but far too late (the answers are still in flight afterwards)
         "exhausted_by_late_answers": {"script": [["answer", 40]] * 8},
         "success_fragmented": {"script": [["frag", 9, 2, 6]]},
+        "success_fragmented_after_1": {"script": [["drop"], ["frag", 9, 2, 6]]},
+        "success_fragmented_after_2": {"script": [["drop"], ["garbage", 2], ["frag", 12, 0, 3]]},
+        "fragment_then_full_after_1": {"script": [["drop"], ["frag_then_full", 14, 2, 4]], "command": ["read", 35100, 8]},
         # every transmission is answered by two invalid datagrams / chunks
         "exhausted_by_double_garbage": {"script": [["pieces", [["garbage", 2], ["garbage", 3]]]] * 8},
         "fragment_then_full_long": {"script": [["frag_then_full", 14, 2, 4]], "command": ["read", 35100, 8]},
@@ -66,6 +69,8 @@ def outcome_classes(transport):
             "send_error": {"script": [["senderr", "ECONNREFUSED"]]},
             "recv_error": {"script": [["recverr", 3, "ECONNREFUSED"]]},
             "recv_error_after_1": {"script": [["drop"], ["recverr", 3, "ECONNREFUSED"]]},
+            "open_unreachable": {"script": [["answer", 2]], "connect": ["unreachable"]},
+            "open_dns_failure_all": {"script": [], "connect": ["gaierror"] * 8},
         })
     return common
 
